@@ -515,6 +515,10 @@ fn gen_c18(rng: &mut Rng, thorough: bool) -> Hist {
     if let (true, Some(spi)) = (rng.chance(0.5), cfg.max_spi) {
         cfg.max_samples = Some(spi * n_inst as i32 + 70);
     }
+    if let (true, Some(spi), Some(d)) = (rng.chance(0.12), cfg.max_spi, cfg.depth) {
+        // tight total: exactly room for depth samples of every instance
+        cfg.max_samples = Some((d as i32 * n_inst as i32).max(spi));
+    }
     if rng.chance(0.4) {
         cfg.max_instances = Some(n_inst as i32 + rng.below(2) as i32);
     }
@@ -836,6 +840,9 @@ fn gen_c24(rng: &mut Rng, thorough: bool) -> Hist {
     let n = if thorough { 8 + rng.usize(40) } else { 5 + rng.usize(25) };
     if mode >= 8 {
         cfg.deadline_ms = *rng.pick(&[200i64, 300, 500]);
+        // dust-dds' worker re-polls without delay while a reader deadline timer is overdue: let
+        // every clock read cost virtual time so that such phases stay affordable
+        cfg.clock_tick = 50_000;
         let d = cfg.deadline_ms;
         let mut g = G::new(rng, cfg.n_writers, n_inst);
         while g.ops.len() < n {
